@@ -78,7 +78,7 @@ pub fn generate(check: &str, tier: &str, seed: u64, run: u64) -> Case {
         "C03" if run % 24 == 10 => crate::gen::gen_fence_multi(&mut rng, false),
         "C07" if run % 12 == 10 => crate::gen::gen_lock_convoy(&mut rng),
         "C01" if run % 24 == 10 => crate::gen::gen_lock_convoy(&mut rng),
-        "C05" if run % 24 == 10 => crate::gen::gen_lock_convoy(&mut rng),
+        "C05" if run % 96 == 10 => crate::gen::gen_lock_convoy(&mut rng),
         "C02" | "C03" => gen_litmus_any(&mut rng, thorough),
         "C01" => {
             if rng.chance(1, 4) {
@@ -287,11 +287,16 @@ pub fn gen_litmus_any(rng: &mut Rng, thorough: bool) -> Program {
 /// Judge a case (pure function of its arguments and of the loom tree).
 pub fn judge(check: &str, tier: &str, case: &Case, seed: u64, run: u64) -> CaseReport {
     crate::interp::CAUGHT_FIRED.with(|c| c.set(0));
+    crate::interp::PANIC_IN_CELL_FIRED.with(|c| c.set(0));
     crate::oracle::REPLAY_INCONCLUSIVE.with(|c| c.set(0));
     let mut rep = judge_inner(check, tier, case, seed, run);
     let inconclusive = crate::oracle::REPLAY_INCONCLUSIVE.with(|c| c.get());
     if inconclusive > 0 {
         rep.extra.insert("replays_out_of_search_budget".into(), inconclusive);
+    }
+    let in_cell = crate::interp::PANIC_IN_CELL_FIRED.with(|c| c.get());
+    if in_cell > 0 {
+        rep.extra.insert("fault_panic_inside_cell_access_fired".into(), in_cell);
     }
     let placed = case.program.threads.iter().flatten().filter(|o| o.is_caught()).count() as u64;
     if placed > 0 {
